@@ -608,6 +608,11 @@ def naming_state_is_per_function(F, res, rule="Y9"):
                 if e["how"] in ("assign", "mutborrow") and e["field"] != "table":
                     state.add(e["field"])
     collects = [(b, t) for b, t in fi.calls() if (callee(t) or "") == COL + "::collect"]
+    # a table filled by `iter().for_each(|..| .. collect(..))`: the closure is created in the block that counts
+    for b, i, s_ in fi.stmts():
+        cp = (s_.get("rv") or {}).get("closure")
+        if cp and any((callee(t2) or "") == COL + "::collect" for q in F.with_closures(cp) for _b2, t2 in F.fns[q].calls()):
+            collects.append((b, {"ln": s_["ln"]}))
     news = [(b, t) for b, t in fi.calls() if (callee(t) or "") == COL + "::new"]
     res.floor("Collector::collect calls in finish_infer", len(collects), 2)
     # the per-function loop: the outermost loop that contains every collect call
